@@ -88,8 +88,8 @@ Definition chk_shape1 (p : prog) (o : iobs) : N :=
       else 0
   end%N.
 
-(* the per-program side condition of the soundness corollary: every statement's definitions can
-   be read simultaneously (seq_ok) and no subscript selects an EMPTY tuple component (sub_ne) *)
+(* the one per-program side condition of the soundness corollary: every statement's definitions
+   can be read simultaneously (seq_ok) *)
 Definition chk_guard1 (p : prog) : bool :=
   body_guard (p_num p) (arg_env (p_args p)) (p_ret p) (p_body p).
 (* ... and the two facts the theorems derive from an injective numbering, evaluated on the
